@@ -149,7 +149,7 @@ def main():
     #          its monitor has already accepted the implementation's execution under the original schedule.
     tolerated = []
     if proj_fail and not mon_fail and not crashed and hasattr(P, "release_atomic") and not replay:
-        cand = proj_fail[:200]
+        cand = proj_fail[:3000]
         variants = [P.release_atomic(byid[x]) for x in cand]
         res3, _ = hl.run_harness(driver, variants, pid + "ra")
         items3 = []
